@@ -98,7 +98,7 @@ PROPS['C01'] = {
     'explanation': 'Bloom and Cuckoo: Verus proofs (unbounded in sizes, hashers, eviction outcomes) of exact whole-view contracts on the real insert/query/delete/union text + history lemmas (bits only grow; every class covers its live elements). Quotient filter: Kani one-step harnesses from EVERY canonical state of a small table (bounded in table size only, unbounded in history length). HashSet reference implementation: five delegations to std, not verified.',
     'trusted_base': COMMON_TRUST + [HASH_TRUST, INTVEC_TRUST, FBS_TRUST, PANIC_ASSERTS,
                                     'verus/prelude/rng.rs: rand::Rng as an arbitrary-value source (gen_range in [a,b), gen::<bool> arbitrary)',
-                                    'HashIterBuilder::setup_f contract assumed in Verus (iterator chain), HashIter no-overflow precondition m <= 2^32'],
+                                    'HashIterBuilder::setup_f: `(0..k).map(|i| {BODY}).collect()` rewritten to the push loop it denotes (BODY verbatim) and verified; HashIter no-overflow precondition m <= 2^32'],
     'assumptions': ['BuildHasher is stable (same words -> same hash) and `==` on BuildHashers is structural', 'quotient filter part is a bounded stand-in (table size)', 'std::collections::HashSet behaves as documented (compat.rs is not verified)'],
     'not_decided': ['HashSet compat implementation (delegations to std)', 'BloomFilter with m > 2^32 bits (u64 overflow of h1 + i*h2 + f is excluded by precondition)'],
 }
